@@ -1,6 +1,9 @@
 use enum_map::EnumMap;
 use indexmap::IndexMap;
 use oal_syntax::atom;
+#[cfg(feature = "verif")]
+use oal_model::verif::ChoiceMap as HashMap;
+#[cfg(not(feature = "verif"))]
 use std::collections::HashMap;
 use std::fmt::Debug;
 
